@@ -1723,17 +1723,20 @@ namespace igris
 
         void erase(iterator newend)
         {
+            igris::array_destructor(newend, end());
             m_size = newend - m_data;
         }
 
         void erase(iterator first, iterator last)
         {
             size_t sz = last - first;
-            for (size_t i = 0; i < sz; ++i)
+            // shift the tail down onto live elements, then destroy what is
+            // left over at the end
+            for (; last != end(); ++first, ++last)
             {
-                igris::destructor(first + i);
+                *first = igris::move(*last);
             }
-            igris::move(last, end(), first);
+            igris::array_destructor(first, end());
             m_size -= sz;
         }
 
